@@ -13,6 +13,9 @@ import (
 
 func init() { logrus.SetLevel(logrus.PanicLevel) }
 
+type configT = config.Config
+type lmdbCfgT = config.LMDB
+
 const dbName = "db"
 
 type syncerOpts struct {
